@@ -72,11 +72,13 @@ Definition s_nl : str := [x0a].
 Definition s_values_panic : str := S "Error in Values: if Dict is used, must be one item only".
 Definition s_nilptr : str := S "runtime error: invalid memory address or nil pointer dereference".
 
-(* group.go:50-51: `tkn.content == "default"` compares the interface content, whatever the token type *)
+(* group.go: the token that token.render writes as `default:` - a keyword / operator / layout /
+   delimiter token whose content is "default".  (Before /repo's fix of the case-block rule the
+   content alone was compared, whatever the token type: Lit("default") in front of a Block
+   made the Block drop its braces.) *)
 Definition tok_content_is_default (t : token) : bool :=
   match t with
-  | TkPkg s | TkId s | TkText s => str_eqb s s_default
-  | TkLit (LStr s) => str_eqb s s_default
+  | TkText s => str_eqb s s_default
   | _ => false
   end.
 
